@@ -814,7 +814,7 @@ orc_compiler_neon_assemble (OrcCompiler *compiler)
     set_fpscr = TRUE;
     ORC_ASM_CODE (compiler,"  vmrs %s, fpscr\n", orc_arm_reg_name (compiler->gp_tmpreg));
     orc_arm_emit (compiler, 0xeef10a10 | ((compiler->gp_tmpreg&0xf)<<12));
-    ORC_ASM_CODE (compiler,"  push %s\n", orc_arm_reg_name (compiler->gp_tmpreg));
+    ORC_ASM_CODE (compiler,"  push {%s}\n", orc_arm_reg_name (compiler->gp_tmpreg));
     orc_arm_emit (compiler, 0xe52d0004 | ((compiler->gp_tmpreg&0xf)<<12));
 
     orc_arm_emit_load_imm (compiler, compiler->gp_tmpreg, 1<<24);
@@ -1084,7 +1084,7 @@ orc_compiler_neon_assemble (OrcCompiler *compiler)
   orc_neon_save_accumulators (compiler);
 
   if (set_fpscr) {
-    ORC_ASM_CODE (compiler,"  pop %s\n", orc_arm_reg_name (compiler->gp_tmpreg));
+    ORC_ASM_CODE (compiler,"  pop {%s}\n", orc_arm_reg_name (compiler->gp_tmpreg));
     orc_arm_emit (compiler, 0xe49d0004 | ((compiler->gp_tmpreg&0xf)<<12));
 
     ORC_ASM_CODE (compiler,"  vmsr fpscr, %s\n", orc_arm_reg_name (compiler->gp_tmpreg));
